@@ -5,9 +5,9 @@
    QuantityIdeal.tla (value semantics) over all histories of a bounded shape from 14 initial configurations
    (same unit / other unit of one dimension / three units / dB levels / Decimal / array / uncertain / angles /
    dimensionless / different dimensions):
-     a. Repaired = TRUE  : invariants Frame, NoShare, SameObjects and the action property Immutable hold
+     a. Fixed = AllDevs  : invariants Frame, NoShare, SameObjects and the action property Immutable hold
                            (the design without the in-place conversions of operands satisfies the property);
-     b. Repaired = FALSE : Frame / NoShare yield counterexamples (sensitivity) - the aliasing defects of the pinned
+     b. Fixed = {}       : Frame / NoShare yield counterexamples (sensitivity) - the aliasing defects of the pinned
                            code, each a NAMED DEVIATION; AllNamed holds (no unnamed departure exists in the machine);
      c. every explored history is emitted with, per step, the receiver (the only object allowed to change), the
         deviations fired per object, the machine's units / reference structure / Decimal flags.
@@ -42,6 +42,9 @@ CONFIGS = {
     "other_dimension": [("m", 0, 0, 0), ("s", 0, 0, 0)],
     "array_uncertain": [("m", 0, 1, 1), ("c:m", 0, 0, 1)],
 }
+# named deviations of QuantityHeap.tla that have been repaired in /repo by a fix: commit (none so far).  When a proposed
+# fix is applied, list its deviations here so that the machine spec follows the repaired algorithm (DESIGN 4.5).
+FIXED_DEVIATIONS = [x for x in os.environ.get("VERIF_C07_FIXED", "").split(",") if x]      # (env: trial of a patch only)
 REP_PURE = ["add", "mul", "eq", "neg", "np.sqrt", "np.abs", "np.linspace", "np.sin", "value", "ctor_dict", "getitem", "radd"]
 REP_PURE_QUICK = ["add", "mul", "eq", "neg", "np.abs", "np.linspace", "ctor_dict"]
 QUICK_REPAIRED = ["other_unit", "dB_same", "decimal_right", "array_uncertain", "angles", "dimensionless"]
@@ -63,6 +66,7 @@ K(u, dec, arr, err) == [u |-> u, dec |-> dec, arr |-> arr, err |-> err]
 MCConfigs == {{ {cfgs} }}
 MCPure == {pure}
 MCInpl == {inpl}
+MCFixed == {C.tla_str(set(FIXED_DEVIATIONS))}
 EmitInv == hist # <<>> => PrintT(ToJson([cfg |-> cfg, hist |-> hist]))
 ====
 """
@@ -72,7 +76,7 @@ def cfg_text(repaired, steps, pure, inpl, invariants, view=False, prop=True):
     inv = "\n".join("INVARIANT " + i for i in invariants)
     return f"""CONSTANTS
   UInfo <- HeapUnits
-  Repaired = {_b(repaired)}
+  Fixed <- {"AllDevs" if repaired is True else "MCFixed"}
   Configs <- MCConfigs
   PureOps <- MCPure
   InplOps <- MCInpl
@@ -268,7 +272,7 @@ def replay_history(job):
                             ou = {inv.get(u, u): e for u, e in s1[3].items()}
                             ou = {u: (A.PyFrac(e[0], e[1]) if isinstance(e, (tuple, list)) else A.PyFrac(e)) for u, e in ou.items()}
                             if names[0] in ("rhs_converted_in_place", "arg_converted_in_place", "operand_to_rad", "operand_to_none"):
-                                as_tr = ou == mu and same(s0[2], s1[2])
+                                as_tr = ou == mu                      # value and units move (the uncertainty may be rescaled)
                             elif names[0] == "log_operands_to_linear":
                                 as_tr = ou == mu and same(s0[1], s1[1]) and same(s0[2], s1[2])
                             else:                                       # shared / mutated Magnitude: only the uncertainty moves
@@ -280,7 +284,7 @@ def replay_history(job):
                             failure=("shared_state" if inplace else "operand_changed") + (":as_transcribed" if as_tr else ""),
                             tags=[a["op"], "role:" + role] + sorted(fired.get(o, [])),
                             expected=s0, observed=s1)))
-                elif o in must and judged and "nan" not in json.dumps(s1):
+                elif o in must and judged and "nan" not in json.dumps(s1).lower():
                     out.append(("drift", f"machine predicts {fired[o]} on object {o} at step {k+1} of {brief(job)} but the object did not change"))
             snaps = new
             # ---- conformance of raising / result
